@@ -85,10 +85,24 @@ func symBytes(v *verifrt.T, name string) []byte {
 	return v.Bytes(n, name)
 }
 
+// c16writer records how a packet reaches the connection: the transports below the encoder
+// (listener.Conn, the WebSocket adapter) are atomic per Write call only, so a packet handed
+// over in two calls can be torn by a concurrent writer.
+type c16writer struct {
+	bytes.Buffer
+	calls int
+}
+
+func (w *c16writer) Write(p []byte) (int, error) {
+	w.calls++
+	return w.Buffer.Write(p)
+}
+
 func encB(v *verifrt.T, m Message, id string) []byte {
-	var w bytes.Buffer
+	var w c16writer
 	_, err := m.EncodeTo(&w)
 	v.Assert(err == nil, id+".encode-ok")
+	v.Assert(w.calls == 1, id+".one-write-per-packet")
 	return w.Bytes()
 }
 
@@ -441,7 +455,7 @@ func VerifC16Size(v *verifrt.T) {
 		m.Payload[0] = v.U8("first")
 		m.Payload[n-1] = v.U8("last")
 	}
-	var w bytes.Buffer
+	var w c16writer
 	var err error
 	panicked := v.Try(func() { _, err = m.EncodeTo(&w) })
 	v.Reach("size-encoded")
@@ -457,6 +471,7 @@ func VerifC16Size(v *verifrt.T) {
 		v.Assert(body > 65535-5, "C16.size.refused-only-when-too-large")
 		return
 	}
+	v.Assert(w.calls == 1, "C16.size.one-write-per-packet")
 	e := w.Bytes()
 	ref := refEncodeLength(uint32(body))
 	v.Assert(len(e) == 1+len(ref)+body, "C16.size.total-length")
